@@ -58,6 +58,7 @@ type Env struct {
 	RootTx *pb.Transaction
 	Root   *pb.InternalBlock
 	Miner  string // address of the key that signs the demo blocks
+	LCtx   *ledger_pkg.LedgerCtx
 	key    *ecdsa.PrivateKey
 }
 
@@ -79,6 +80,7 @@ func New(withState bool, edit func(root *pb.Transaction)) *Env {
 	if GenesisExtra != "" {
 		gc = append([]byte(`{`+GenesisExtra+`,`), genesisConf[1:]...)
 	}
+	e.LCtx = lctx
 	e.Ledger, err = ledger_pkg.CreateLedger(lctx, gc)
 	Must(err)
 	e.RootTx, err = txn.GenerateRootTx([]byte(`{"version":"1","consensus":{"miner":"0x0"},"predistribution":[{"address":"` + Bob + `","quota":"10000000"},{"address":"` + Alice + `","quota":"20000000"}],"maxblocksize":"128","period":"5000","award":"1000000"}`))
